@@ -42,6 +42,11 @@ def render_scenarios(rng, n):
                 body.append({"op": "reg_write", "w": 64, "reg": "RSP", "val": 0x70000000})      # stack switched to unmapped memory
             body.append({"op": "step"})
             body.append({"op": rng.choice(["trace", "call_stack", "to_string", "trace"])})
+        if rng.random() < 0.3:
+            # the host (or the guest) overwrites the code afterwards: the log was recorded, rendering it must still succeed
+            body += [{"op": "mem_prot", "start": xc.CODE, "prot": 7},
+                     {"op": "mem_write_bytes", "addr": xc.CODE, "data": [rng.choice([0x06, 0xff, 0x0f])] * len(p.code)},
+                     {"op": "trace"}, {"op": "call_stack"}, {"op": "to_string"}, {"op": "trace"}]
         sc = xc.scenario(f"r{k}", p, pre, body)
         if pattern is not None:
             sc["_ret_pattern"] = pattern
